@@ -19,7 +19,7 @@ OPAQUE_RE = re.compile(
     r"(::len$|::is_empty$|::find$|::rfind$|::starts_with$|::ends_with$|::contains$|::contains_key$|::eq$|::ne$|::cmp$|::partial_cmp$|"
     r"::lt$|::le$|::gt$|::ge$|::is_some$|::is_none$|::is_ok$|::is_err$|::exists$|::is_file$|::is_dir$|::is_absolute$|"
     r"^std::fs::(write|remove_file|metadata)$|^std::fs::File::(create|open)$|^std::thread::sleep$|^log::|^std::io::_eprint$|"
-    r"::hash$|^std::time::|^termcolor::|::is_whitespace$|^std::fs::Metadata::len$|^std::process::ExitStatus::)")
+    r"::hash$|^std::time::|^termcolor::|::is_whitespace$|^std::fs::Metadata::len$|^std::process::ExitStatus::|::from_residual$)")
 
 
 def is_scalar(ty):
@@ -57,6 +57,10 @@ class Taint:
 
     def node_of_op(self, b, op):
         if op["k"] in ("copy", "move"):
+            # the error side of a Result/ControlFlow carries no text towards the sinks
+            for e in op["pl"]["p"]:
+                if e["k"] == "field" and e.get("owner") in ("std::result::Result", "std::ops::ControlFlow") and e.get("variant") in ("Err", "Break"):
+                    return None
             return self.node_of_place(b, op["pl"])
         return None
 
@@ -120,6 +124,8 @@ class Taint:
                 self.edge(dst, src, where)      # writes through the reference reach the referent
         elif k == "aggregate":
             a = rv["agg"]
+            if a["k"] == "adt" and a["adt"] in ("std::result::Result", "std::ops::ControlFlow") and a.get("variant") in ("Err", "Break"):
+                return
             for i, op in enumerate(rv["ops"]):
                 src = self.node_of_op(b, op)
                 if op["k"] == "const" and self._const_is_text(op):
